@@ -267,4 +267,43 @@ theorem stepM_keeps_sorted (defs : List LayerDef) (n : Nat) (st st' : MSt) (evs 
           · simp only [stepSkip, StepRes.more.injEq] at h
             rw [← h.2]; exact sortLayers_sorted _ _ hr
 
+theorem fold_insertLayer_sorted : ∀ (r : List MLayer) (l0 : MLayer) (rest : List MLayer), Sorted rest →
+    ∃ rest', r.foldl insertLayer (l0 :: rest) = l0 :: rest' ∧ Sorted rest' := by
+  intro r
+  induction r with
+  | nil => intro l0 rest hs; exact ⟨rest, rfl, hs⟩
+  | cons x r ih =>
+    intro l0 rest hs
+    simp only [List.foldl_cons]
+    obtain ⟨rest1, h1, hs1⟩ := insertLayer_sorted l0 rest x hs
+    rw [h1]
+    exact ih l0 rest1 hs1
+
+/-- The repaired set-up of `Highlighter::highlight` yields an ordered layer list, whatever layers
+`HighlightIterLayer::new` returned and in whatever order. -/
+theorem initLayersR_sorted (defs : List LayerDef) (top : List Nat) : Sorted (initLayersR defs top) := by
+  unfold initLayersR
+  cases top.filterMap (mkLayer defs) with
+  | nil => trivial
+  | cons l0 r =>
+    simp only
+    obtain ⟨rest', he, hs⟩ := fold_insertLayer_sorted r l0 [] trivial
+    rw [he]
+    exact sortLayers_sorted l0 rest' hs
+
+/-- Every state the loop reaches from an ordered state is ordered. -/
+theorem iterM_sorted (defs : List LayerDef) (n : Nat) : ∀ (k : Nat) (st st' : MSt), Sorted st.layers →
+    iterM defs n k st = some st' → Sorted st'.layers := by
+  intro k
+  induction k with
+  | zero => intro st st' hs h; simp only [iterM, Option.some.injEq] at h; rw [← h]; exact hs
+  | succ k ih =>
+    intro st st' hs h
+    unfold iterM at h
+    cases hstep : stepM defs n st with
+    | done evs => rw [hstep] at h; simp at h
+    | more evs st1 =>
+      rw [hstep] at h
+      exact ih st1 st' (stepM_keeps_sorted defs n st st1 evs hs hstep) h
+
 end TsVerif.C17
